@@ -43,7 +43,8 @@ def native_concat(values: t.Iterable[t.Any]) -> t.Any | None:
             # parse the string ourselves without removing leading spaces/tabs.
             parse(raw, mode="eval")
         )
-    except (ValueError, SyntaxError, MemoryError):
+    except (ValueError, SyntaxError, TypeError, MemoryError):
+        # TypeError: e.g. an unhashable set element or dict key
         return raw
 
 
